@@ -327,6 +327,17 @@ class BinOp(Expression):
             if isinstance(TypeQualifier.decay(self._rhs.result), BitVector):
                 self._rhs.result = self._rhs.result.bitvector
 
+        if self._op in (
+            BinOp.Operator.BIT_AND,
+            BinOp.Operator.BIT_OR,
+            BinOp.Operator.BIT_XOR,
+        ):
+            # VHDL defines no logical operators for the type integer
+            for operand in (self._lhs, self._rhs):
+                assert not isinstance(
+                    TypeQualifier.decay(operand.result), Integer
+                ), "bitwise operators are not supported for runtime variable integers"
+
         op = BinOp.operator_string[self._op]
 
         # the results of +, - and * only depend on the integer modulo 2**width
